@@ -121,6 +121,7 @@ def gen_case(rng, vector=None, nfaces=None, N=None):
             "labels": None if rng.random() < 0.7 else rng.choice([list(range(1, nfaces + 1)),
                                                                    rng.sample(range(0, 9), nfaces)]),
             "links_as_lists": rng.random() < 0.25,
+            "lazy": rng.random() < 0.2, "bw_spelling": rng.choice(["tuple", "tuple", "list", "numpy"]),
             "dtype": rng.choice(["float64", "float64", "int64", "float32"]),
             "partner_dtype": rng.choice(["float64", "int64", "float32"]), "warmup": rng.random() < 0.3}
 
@@ -169,7 +170,11 @@ def run_impl(case):
     from xgcm.padding import _get_all_connection_axes, pad
     ds, g, fc = build(case)
     da = mkda(case["dims"], case["vals"], case.get("dtype", "float64"))
-    bw = {a: tuple(w) for a, w in case["bw"]} if case["bw"] is not None else None
+    import numpy as np
+    mk = {"tuple": tuple, "list": list, "numpy": lambda w: (np.int64(w[0]), np.int32(w[1]))}[case.get("bw_spelling", "tuple")]
+    bw = {a: mk(w) for a, w in case["bw"]} if case["bw"] is not None else None
+    if case.get("lazy"):
+        da = da.chunk({d: 1 for d in da.dims if d in ("face", "t")})
     order = []
     if bw is not None:
         needed = _get_all_connection_axes(fc, "face") + list(bw.keys())
